@@ -99,7 +99,13 @@ func MultiCPPlanFromSeed(seed int64, idx int) FilterPlan {
 	kinds := []string{netsim.LieWrongHash, netsim.LieOmitScript, netsim.LieUnserved, netsim.LieExtraElem}
 	liar := func(liarSeed int64) PeerBehaviour {
 		if listOnly {
-			return PeerBehaviour{Lies: []netsim.Lie{{Kind: netsim.LieCheckpt, Height: older}}, LiarSeed: liarSeed}
+			// Mostly the older height; sometimes any hard-coded height, the
+			// newest included.
+			at := older
+			if r.Intn(4) == 0 {
+				at = p.FilterCPs[r.Intn(len(p.FilterCPs))]
+			}
+			return PeerBehaviour{Lies: []netsim.Lie{{Kind: netsim.LieCheckpt, Height: at}}, LiarSeed: liarSeed}
 		}
 		h := older - int32(r.Intn(1000))
 		if r.Intn(4) == 0 {
